@@ -382,15 +382,24 @@ pub open spec fn shown(t0: &Trace, t1: &Trace, lines: Seq<Seq<u8>>, k: int) -> b
     && (forall|i: int| 0 <= i < k ==> #[trigger] t1.prompt_prints[t0.prompt_prints.len() + i] == PrintEv { line: norm(lines[i]), at: t0.execs.len() as int, justified: true })
 }
 
+pub open spec fn ui_frame(t0: &Trace, t1: &Trace) -> bool {
+    t1.execs == t0.execs && t1.datas == t0.datas && t1.svcs == t0.svcs && t1.code_prints == t0.code_prints && same_pre(t1, t0) && t1.prompts == t0.prompts
+}
+/// k lines consumed so far, none of them next / quit, each handed to the print reader
+pub open spec fn ui_progress(t0: &Trace, t1: &Trace, i0: &InLog, i1: &InLog) -> bool {
+    let k = t1.prompt_prints.len() - t0.prompt_prints.len();
+    &&& 0 <= k <= i0.lines.len()
+    &&& answered(i0.lines, k)
+    &&& shown(t0, t1, i0.lines, k)
+    &&& i1.lines =~= i0.lines.skip(k)
+}
 //@fn src/driver/user_interface.rs user_interface
 //@contract
 //@ghost printer.parse :: Tracked(verif_tr), Tracked(verif_log), Ghost(true)
     requires lines_ok(old(verif_in)),
     ensures
         // a prompt session executes nothing: no instruction, no loader call, no service, no print line of the program
-        final(verif_tr).execs == old(verif_tr).execs && final(verif_tr).datas == old(verif_tr).datas && final(verif_tr).svcs == old(verif_tr).svcs
-            && final(verif_tr).code_prints == old(verif_tr).code_prints && same_pre(final(verif_tr), old(verif_tr))
-            && final(verif_tr).prompts == old(verif_tr).prompts, //# C17,C20 prompt.executes_nothing
+        ui_frame(old(verif_tr), final(verif_tr)), //# C17,C20 prompt.executes_nothing
         // it shows the prompt at least once
         final(verif_log).lits.len() > old(verif_log).lits.len() && final(verif_log).lits[old(verif_log).lits.len() as int] == @LIT(">>> "), //# C20 prompt.is_shown
         extends(old(verif_log), final(verif_log)),
@@ -407,17 +416,10 @@ pub open spec fn shown(t0: &Trace, t1: &Trace, lines: Seq<Seq<u8>>, k: int) -> b
 //@loop 0
         invariant
             lines_ok(verif_in),
-            verif_tr.execs == old(verif_tr).execs && verif_tr.datas == old(verif_tr).datas && verif_tr.svcs == old(verif_tr).svcs
-                && verif_tr.code_prints == old(verif_tr).code_prints && same_pre(verif_tr, old(verif_tr)) && verif_tr.prompts == old(verif_tr).prompts,
+            ui_frame(old(verif_tr), verif_tr), //# C17,C20 prompt.loop_executes_nothing
             extends(old(verif_log), verif_log),
-            verif_log.lits.len() > old(verif_log).lits.len() ==> verif_log.lits[old(verif_log).lits.len() as int] == @LIT(">>> "),
-            ({
-                let k = verif_tr.prompt_prints.len() - old(verif_tr).prompt_prints.len();
-                &&& 0 <= k <= old(verif_in).lines.len()
-                &&& answered(old(verif_in).lines, k)
-                &&& shown(old(verif_tr), verif_tr, old(verif_in).lines, k)
-                &&& verif_in.lines == old(verif_in).lines.skip(k)
-            }),
+            verif_log.lits.len() > old(verif_log).lits.len() ==> verif_log.lits[old(verif_log).lits.len() as int] == @LIT(">>> "), //# C20 prompt.loop_shows_prompt_first
+            ui_progress(old(verif_tr), verif_tr, old(verif_in), verif_in), //# C17,C20 prompt.loop_answers_print_commands_in_order
         // every turn of the prompt consumes one pending input line; at the end of input it must leave
         decreases verif_in.lines.len(), //# C20 prompt.terminates_at_end_of_input
 //@end
@@ -507,36 +509,38 @@ impl CMDDriver {
             ==> final(verif_log).entries.len() > final(verif_tr).execs.last().log_len, //# C18 run.unsupported_service_is_reported
 //@loop 0
         invariant
-            verif_tr.pre_calls == 1 && verif_tr.datas.len() == 0 && verif_tr.execs.len() == 0 && verif_tr.svcs.len() == 0 && verif_tr.code_prints.len() == 0 && verif_tr.prompts.len() == 0,
-            verif_log.entries == old(verif_log).entries,
+            verif_tr.pre_calls == 1 && verif_tr.datas.len() == 0 && verif_tr.execs.len() == 0 && verif_tr.svcs.len() == 0 && verif_tr.code_prints.len() == 0 && verif_tr.prompts.len() == 0, //# C14 check.nothing_loaded_or_executed_while_checking_labels
+            verif_log.entries == old(verif_log).entries, //# C14,C19 check.nothing_reported_before_the_first_undefined_label
             verif_it.history@.len() <= verif_it.snapshot@.remaining().len(),
             forall|k: int| 0 <= k < verif_it.history@.len() ==> verif_it.history@[k] == verif_it.snapshot@.remaining()[k],
             // the traversal meets every element of the set (vstd), and everything met so far is a defined label
             forall|p: (usize, String)| undefined_labels@.contains(p) ==> exists|k: int| 0 <= k < verif_it.snapshot@.remaining().len() && *(#[trigger] verif_it.snapshot@.remaining()[k]) == p,
-            forall|k: int| 0 <= k < verif_it.history@.len() ==> lmap@.contains_key((#[trigger] verif_it.snapshot@.remaining()[k]).1),
+            forall|k: int| 0 <= k < verif_it.history@.len() ==> lmap@.contains_key((#[trigger] verif_it.snapshot@.remaining()[k]).1), //# C14,C19 check.every_label_met_so_far_is_defined
 //@end
 //@loop 1
         invariant
-            verif_tr.pre_calls == 1 && verif_tr.execs.len() == 0 && verif_tr.svcs.len() == 0 && verif_tr.code_prints.len() == 0 && verif_tr.prompts.len() == 0,
+            verif_tr.pre_calls == 1 && verif_tr.execs.len() == 0 && verif_tr.svcs.len() == 0 && verif_tr.code_prints.len() == 0 && verif_tr.prompts.len() == 0, //# C12 load.before_any_instruction
             verif_tr.pre.ok && verif_tr.pre.lmap == ictx.label_map@ && verif_tr.pre.und == undefined_labels@ && verif_tr.pre.code == out.code@ && verif_tr.pre.data == out.data@,
-            verif_tr.datas.len() == verif_it.history@.len(),
+            verif_tr.datas.len() == verif_it.history@.len(), //# C12 load.one_call_per_data_line
             forall|k: int| 0 <= k < verif_tr.datas.len() ==> (#[trigger] verif_tr.datas[k]).okay, //# C12 load.next_line_continuing_counter_before_code
-            verif_tr.datas.len() > 0 ==> ctr == verif_tr.datas.last().ctr_out,
-            verif_tr.datas.len() == 0 ==> ctr == 0 && fresh_machine(&vm),
+            verif_tr.datas.len() > 0 ==> ctr == verif_tr.datas.last().ctr_out, //# C12 load.counter_is_carried_over
+            verif_tr.datas.len() == 0 ==> ctr == 0 && fresh_machine(&vm), //# C12 load.counter_starts_at_0_on_a_fresh_machine
             verif_log.entries.len() >= old(verif_log).entries.len(),
 //@end
 //@loop 2
         invariant
             // bookkeeping of the loop itself
-            verif_tr.pre_calls == 1 && valid(verif_tr.pre) && lines_ok(verif_in),
-            verif_tr.pre.lmap == ictx.label_map@,
+            verif_tr.pre_calls == 1, //# C19 loop.assembles_once
+            valid(verif_tr.pre), //# C14 loop.runs_only_valid_programs
+            lines_ok(verif_in),
+            verif_tr.pre.lmap == ictx.label_map@, //# C08 loop.symbol_table_is_the_assemblers
             verif_log.entries.len() >= old(verif_log).entries.len(),
-            idx <= verif_tr.pre.code.len(),
-            out.code@.len() == verif_tr.pre.code.len() + 1,
-            forall|k: int| 0 <= k < out.code@.len() ==> (#[trigger] out.code@[k])@ == code_hlt(verif_tr.pre)[k],
-            targets_ok(&ictx, verif_tr.pre.code.len() as int),
-            verif_tr.code_prints.len() > 0 ==> verif_tr.code_prints.last().at <= verif_tr.execs.len(),
-            verif_tr.svcs.len() > 0 ==> verif_tr.svcs.last().at <= verif_tr.execs.len(),
+            idx <= verif_tr.pre.code.len(), //# C08 loop.index_stays_inside_the_program
+            out.code@.len() == verif_tr.pre.code.len() + 1, //# C08 loop.exactly_one_hlt_appended
+            forall|k: int| 0 <= k < out.code@.len() ==> (#[trigger] out.code@[k])@ == code_hlt(verif_tr.pre)[k], //# C08 loop.code_is_the_assemblers_plus_final_hlt
+            targets_ok(&ictx, verif_tr.pre.code.len() as int), //# C08 loop.jump_targets_stay_inside_the_program
+            verif_tr.code_prints.len() > 0 ==> verif_tr.code_prints.last().at <= verif_tr.execs.len(), //# C17 loop.print_reader_calls_in_order
+            verif_tr.svcs.len() > 0 ==> verif_tr.svcs.last().at <= verif_tr.execs.len(), //# C18 loop.service_calls_in_order
             // what the loop owes the next instruction (facts about the last event and idx)
             m_first(verif_tr, idx as int, vm.arch.ds), //# C08,C12 loop.begins_at_start_with_ds_0
             m_after(verif_tr), //# C08,C18 loop.stops_after_hlt_error_or_unsupported_service
@@ -549,7 +553,13 @@ impl CMDDriver {
             verif_tr.prompts.len() == (if verif_tr.execs.len() > 0 { verif_tr.execs.last().prompts_before + b2i(is_int3(verif_tr.execs.last())) } else { 0 }), //# C20 loop.no_prompt_other_than_stepping_and_int3
             // the properties so far
             p_line(verif_tr), //# C08 loop.executes_lines_of_the_program_plus_final_hlt
-            p_first(verif_tr) && p_after(verif_tr) && p_jmp(verif_tr) && p_next(verif_tr) && p_repeat(verif_tr) && p_print(verif_tr) && p_int(verif_tr) && p_data(verif_tr),
+            p_first(verif_tr), //# C08,C12 loop.first_instruction_ok_so_far
+            p_after(verif_tr), //# C08,C18 loop.stops_ok_so_far
+            p_jmp(verif_tr) && p_next(verif_tr), //# C08 loop.jump_and_next_ok_so_far
+            p_repeat(verif_tr), //# C07 loop.repeat_ok_so_far
+            p_print(verif_tr), //# C17 loop.print_ok_so_far
+            p_int(verif_tr), //# C18 loop.int_ok_so_far
+            p_data(verif_tr), //# C12 loop.data_ok_so_far
             p_prompts(verif_tr), //# C20 loop.one_prompt_per_instruction_iff_stepping
             p_code_prints(verif_tr), //# C17 loop.print_reader_only_for_print_lines_once
             p_svcs(verif_tr), //# C18 loop.service_only_for_int_with_supported_ah_once
